@@ -264,7 +264,7 @@ func (b *Broker) accept() {
 		if err != nil {
 			return
 		}
-		cn := &conn{b: b, c: c, id: b.connSeq.Add(1), wake: make(chan struct{}, 1), gone: make(chan struct{})}
+		cn := &conn{b: b, c: c, id: b.connSeq.Add(1), wake: make(chan struct{}, 1)}
 		b.mu.Lock()
 		select {
 		case <-b.done:
@@ -290,8 +290,6 @@ type conn struct {
 	q        []Reply
 	eof      bool
 	wake     chan struct{}
-	gone     chan struct{} // closed when the writer is done with the connection
-	goneOnce sync.Once
 	deferred [][]byte
 }
 
@@ -543,11 +541,18 @@ func (b *Broker) handle(req *Request) Reply {
 	return b.ZeroReply(req)
 }
 
-// ZeroReply answers with the zero-valued response of the request's kind; an
-// undecodable or unknown request closes the connection.
+// ZeroReply answers with the zero-valued response of the request's kind; a
+// request of an unknown key closes the connection.
 func (b *Broker) ZeroReply(req *Request) Reply {
 	if req.Req == nil {
-		return Reply{}.Close()
+		// undecodable body: still answer (zero response of the key at the
+		// header version) so that one odd request does not take the
+		// connection down; unknown keys close.
+		resp := kmsg.ResponseForKey(req.Key)
+		if resp == nil {
+			return Reply{}.Close()
+		}
+		return Reply{}.Write(Respond(&req.Header, resp))
 	}
 	if pr, ok := req.Req.(*kmsg.ProduceRequest); ok && pr.Acks == 0 {
 		return Reply{}
